@@ -126,6 +126,10 @@ func filterColumns(row *ovsdb.Row, columns map[string]bool) *ovsdb.Row {
 	if row == nil {
 		return nil
 	}
+	if columns == nil {
+		// no columns requested means all of them
+		return row
+	}
 	new := make(ovsdb.Row, len(*row))
 	for k, v := range *row {
 		if _, ok := columns[k]; ok {
@@ -146,10 +150,13 @@ func (m *monitor) filter(update database.Update) ovsdb.TableUpdates {
 			continue
 		}
 		tu := ovsdb.TableUpdate{}
-		cols := make(map[string]bool)
-		cols["_uuid"] = true
-		for _, c := range m.request[table].Columns {
-			cols[c] = true
+		var cols map[string]bool
+		if len(m.request[table].Columns) > 0 {
+			cols = make(map[string]bool)
+			cols["_uuid"] = true
+			for _, c := range m.request[table].Columns {
+				cols[c] = true
+			}
 		}
 		_ = update.ForEachRowUpdate(table, func(uuid string, ru2 ovsdb.RowUpdate2) error {
 			ru := &ovsdb.RowUpdate{}
@@ -160,9 +167,6 @@ func (m *monitor) filter(update database.Update) ovsdb.TableUpdates {
 			case ru.Modify() && m.request[table].Select.Modify():
 				fallthrough
 			case ru.Delete() && m.request[table].Select.Delete():
-				if len(cols) == 0 {
-					return nil
-				}
 				ru.New = filterColumns(ru.New, cols)
 				ru.Old = filterColumns(ru.Old, cols)
 				tu[uuid] = ru
@@ -185,10 +189,13 @@ func (m *monitor) filter2(update database.Update) ovsdb.TableUpdates2 {
 			continue
 		}
 		tu2 := ovsdb.TableUpdate2{}
-		cols := make(map[string]bool)
-		cols["_uuid"] = true
-		for _, c := range m.request[table].Columns {
-			cols[c] = true
+		var cols map[string]bool
+		if len(m.request[table].Columns) > 0 {
+			cols = make(map[string]bool)
+			cols["_uuid"] = true
+			for _, c := range m.request[table].Columns {
+				cols[c] = true
+			}
 		}
 		_ = update.ForEachRowUpdate(table, func(uuid string, ru2 ovsdb.RowUpdate2) error {
 			switch {
@@ -197,9 +204,6 @@ func (m *monitor) filter2(update database.Update) ovsdb.TableUpdates2 {
 			case ru2.Modify != nil && m.request[table].Select.Modify():
 				fallthrough
 			case ru2.Delete != nil && m.request[table].Select.Delete():
-				if len(cols) == 0 {
-					return nil
-				}
 				ru2.Insert = filterColumns(ru2.Insert, cols)
 				ru2.Modify = filterColumns(ru2.Modify, cols)
 				ru2.Delete = filterColumns(ru2.Delete, cols)
